@@ -430,11 +430,11 @@ fn gen_text(p: &mut Prng, allow_empty: bool, structural: bool) -> String {
     for _ in 0..n {
         let r = p.below(10);
         if structural && r < 3 {
-            s.push_str(p.pick(STRUCT));
+            s.push_str(*p.pick(STRUCT));
         } else if r < 6 {
-            s.push_str(p.pick(PLAIN));
+            s.push_str(*p.pick(PLAIN));
         } else {
-            s.push_str(p.pick(SPECIAL));
+            s.push_str(*p.pick(SPECIAL));
         }
     }
     if s.is_empty() && !allow_empty {
@@ -450,6 +450,8 @@ fn unchanged(b: u8) -> bool {
 /// encodes one component.  style 0 = exactly what `form_urlencoded` emits; 1 = lower-case hex;
 /// 2 = every byte escaped; 3 = `%20` for space and a few more bytes left raw (still unambiguous)
 fn encode_component(s: &[u8], style: u64, out: &mut Vec<u8>) {
+    // raw bytes are only sent when they are valid UTF-8 (rocket reads the body as a string)
+    let style = if style >= 3 && std::str::from_utf8(s).is_err() { 0 } else { style };
     for &b in s {
         match style {
             0 => {
@@ -536,7 +538,8 @@ pub fn gen_post(p: &mut Prng, sids: &[u32], tag: u64) -> PostCase {
     };
     let content = matches!(shape, 5..=9 | 15..=24 | 90..=99);
     for _ in 0..nparams {
-        let k = gen_text(p, p.chance(1, 12), structural);
+        let allow_empty = p.chance(1, 12);
+        let k = gen_text(p, allow_empty, structural);
         let v = gen_text(p, true, false);
         fields.push((k.into_bytes(), v.into_bytes()));
     }
@@ -569,11 +572,13 @@ pub fn gen_post(p: &mut Prng, sids: &[u32], tag: u64) -> PostCase {
     if p.chance(1, 15) && !fields.is_empty() {
         let i = p.below(fields.len() as u64) as usize;
         if fields[i].0 != EVENT_NAME.as_bytes() {
-            fields[i].1.extend_from_slice(p.pick(&[&b"\xff"[..], &b"\xc3"[..], &b"\xe6\x97"[..], &b"\x80x"[..]]));
+            const BAD: &[&[u8]] = &[b"\xff", b"\xc3", b"\xe6\x97", b"\x80x"];
+            fields[i].1.extend_from_slice(*p.pick(BAD));
             kind.push_str("badutf8 ");
         }
     }
-    let body = encode_fields(p, &fields, p.chance(1, 4));
+    let noise = p.chance(1, 4);
+    let body = encode_fields(p, &fields, noise);
     kind.push_str(&format!(
         "{} {} params={} {}{}",
         segkind,
@@ -631,6 +636,8 @@ fn post_corpus(sids: &[u32]) -> Vec<PostCase> {
         mk(&s0, "k:n=_scxmleventname&v:n=sneaky", "event name smuggled in through k:/v:"),
         mk(&s0, "_scxmleventname.x=ev", "name key with a suffix is read as the name"),
         mk(&s0, "_scxmleventname=ev&v=%ff%fe", "invalid UTF-8 in a value is replaced"),
+        PostCase { seg: s0.clone(), body: b"_scxmleventname=ev&v=\xff\xfe".to_vec(), kind: "corpus raw bytes that are not UTF-8".into(), tag: None },
+        mk("%31", "_scxmleventname=ev", "percent-encoded segment (may or may not be a live id)"),
     ]
 }
 
@@ -664,6 +671,24 @@ fn post_batch(env: &mut Env, cases: &[PostCase], threads: usize) -> Result<(Vec<
     env.flush()?;
     let evs = env.take_events();
     Ok((outs.into_iter().map(|o| o.unwrap()).collect(), evs))
+}
+
+fn pct_decode(s: &[u8]) -> Vec<u8> {
+    let hv = |c: u8| (c as char).to_digit(16).map(|d| d as u8);
+    let mut out = vec![];
+    let mut i = 0;
+    while i < s.len() {
+        if s[i] == b'%' && i + 2 < s.len() + 0 && i + 2 <= s.len() - 1 {
+            if let (Some(h), Some(l)) = (hv(s[i + 1]), hv(s[i + 2])) {
+                out.push(h * 16 + l);
+                i += 3;
+                continue;
+            }
+        }
+        out.push(s[i]);
+        i += 1;
+    }
+    out
 }
 
 fn tag_of(name: &str) -> Option<u64> {
@@ -715,6 +740,16 @@ fn check_posts(env: &mut Env, model: &mut Model, rep: &mut Report, cases: &[Post
             }
         };
         rep.count(&format!("status_{}", status));
+        if std::str::from_utf8(&c.body).is_err() {
+            // rocket reads the body with `into_string()`: a body that is not UTF-8 never reaches the form
+            // parser (outside the model, which works on the bytes of a string); it must still be refused
+            rep.count("post_body_not_utf8");
+            if status < 400 || !per_case[i].is_empty() {
+                rep.disagree(json!({"origin": origin, "case": c.to_json(), "what": "a body that is not UTF-8 was not refused",
+                    "impl": {"status": status, "events": per_case[i].iter().map(|o| o.to_json()).collect::<Vec<_>>()}}));
+            }
+            continue;
+        }
         let reply = model.ask(&format!("http post {} {} {}", sidsw, hex(c.seg.as_bytes()), hex(&c.body)));
         let (mst, mut mev) = match parse_post_reply(&reply) {
             Some(x) => x,
@@ -740,8 +775,15 @@ fn check_posts(env: &mut Env, model: &mut Model, rep: &mut Report, cases: &[Post
                 OData::Other(_) => rep.count("data_other"),
             }
         }
-        // the property itself on the implementation's output
-        let segnum: Option<u32> = c.seg.parse().ok();
+        // the property itself on the implementation's output (it speaks about strings: requests whose
+        // decoded fields are not UTF-8 are outside it; rocket replaces the offending bytes)
+        let fields = parse_pairs(&model.ask(&format!("http decode {}", hex(&c.body)))).unwrap_or_default();
+        if fields.iter().any(|(k, v)| std::str::from_utf8(k).is_err() || std::str::from_utf8(v).is_err()) {
+            rep.count("oracle_skipped_not_utf8");
+            continue;
+        }
+        // RFC 3986: `%31` and `1` are the same path segment
+        let segnum: Option<u32> = String::from_utf8(pct_decode(c.seg.as_bytes())).ok().and_then(|t| t.parse().ok());
         let known = segnum.map(|s| env.sids.contains(&s)).unwrap_or(false);
         let verdict = model.ask(&format!(
             "http oracle {} {} {} {} {}",
@@ -753,7 +795,6 @@ fn check_posts(env: &mut Env, model: &mut Model, rep: &mut Report, cases: &[Post
         ));
         rep.count(&format!("oracle_{}", verdict.split(':').next().unwrap_or("?")));
         if verdict != "ok" && verdict != "na" {
-            let fields = parse_pairs(&model.ask(&format!("http decode {}", hex(&c.body)))).unwrap_or_default();
             let sig = format!("C20:recv:{}:{}", verdict, name_class(&fields));
             rep.oracle_fail(&sig, json!({"origin": origin, "case": "post", "seg": c.seg, "body_hex": hex(&c.body),
                 "body_text": lossy(&c.body), "kind": c.kind, "status": status,
@@ -892,7 +933,8 @@ impl DV {
             }
             DV::Bool(b) => b.to_string(),
             DV::Null => "null".to_string(),
-            DV::Array(a) => format!("[{}]", a.iter().map(|d| d.literal()).collect::<Option<Vec<_>>>()?.join(",")),
+            // <param expr="[..]"> is rejected by evaluate_params ("Can't return array"): not expressible
+            DV::Array(_) => return None,
             DV::Double(f) => {
                 let t = f.to_string();
                 if !t.contains('.') || t.contains('e') || t.contains("inf") || t.contains("NaN") {
@@ -920,7 +962,7 @@ fn gen_dv(p: &mut Prng, depth: u32, literal_only: bool) -> DV {
         4 => DV::Null,
         5 => DV::Double(*p.pick(&[0.5f64, 1.5, -2.25, 1234.0625, 0.1, 100.5])),
         6 => {
-            if depth >= 2 {
+            if depth >= 2 || literal_only {
                 DV::Int(7)
             } else {
                 let n = p.below(4);
@@ -1232,7 +1274,7 @@ fn e2e_corpus() -> Vec<E2eCase> {
         mk(SendCase { name: "leave".into(), params: Some(vec![("p1".into(), s("abc")), ("p2".into(), DV::Int(123))]), content: None }, false, true, false, 20),
         mk(SendCase { name: "e.v".into(), params: Some(vec![("k 1".into(), s("a b+c&d=e%f")), ("é".into(), s("日本 😀"))]), content: None }, true, false, false, 0),
         mk(SendCase { name: "with space & more".into(), params: None, content: Some(s("some content = 100%")) }, true, true, true, 0),
-        mk(SendCase { name: "t".into(), params: Some(vec![("i".into(), DV::Int(-5)), ("b".into(), DV::Bool(false)), ("n".into(), DV::Null), ("a".into(), DV::Array(vec![DV::Int(1), s("x")])), ("d".into(), DV::Double(1.5))]), content: None }, false, false, false, 0),
+        mk(SendCase { name: "t".into(), params: Some(vec![("i".into(), DV::Int(-5)), ("b".into(), DV::Bool(false)), ("n".into(), DV::Null), ("d".into(), DV::Double(1.5))]), content: None }, false, false, false, 0),
         mk(SendCase { name: "colon".into(), params: Some(vec![("x:y".into(), DV::Int(1))]), content: None }, true, false, false, 0),
         mk(SendCase { name: "dot".into(), params: Some(vec![("a.b".into(), DV::Int(1))]), content: None }, true, false, false, 0),
     ]
